@@ -599,8 +599,8 @@ Section Term.
       good st (snd (resolve_reference ds rec st r)).
     Proof.
       intros G HL Hr. unfold resolve_reference, get_resolved_item.
-      destruct (alookup (r_res r) (st_res st)).
-      - now apply walk_keys_good.
+      destruct (alookup (r_res r) (st_res st)) as [rs|].
+      - destruct (rs_loaded rs); [now apply walk_keys_good|now apply good_refl].
       - destruct (compile_h_ok st (r_res r) G Hr) as (G1 & c1 & o1).
         destruct (compile_h ds st (r_res r)) as [[id loaded] st1]. cbn [snd] in *.
         assert (K : good st st1) by (split; [exact G1|split; [rewrite c1; lia|exact o1]]).
